@@ -507,7 +507,12 @@ RULES["R15.1"] += " | entries-stay-in-place (who-may-permute): over every functi
 RULES["R15.1"] += " | writes-inside-the-walk: on the E6 summary of every non-panicking path of the in-place tensor operations (&mut self), the straight-line part contains no assignment to an indexed place and no non-appending Vec/slice mutator: all entry writes happen inside the element-wise walk"
 
 
+RULES["R15.1"] += " | returned-as-computed: the same test on the returned value of every value-returning tensor function (one_hot, whose definition is one assigned entry, and reshape, judged under C14, excepted)"
+
+
 def run(ctx):
+    from .common import returned_as_computed
+    ctx.guard("R15.1", "returned-as-computed", returned_as_computed, ctx, "R15.1", {"src/tensor.rs"}, lambda p_, l_: not p_.startswith("<") and l_ not in ("one_hot", "reshape"), ("field-assignment",), 25)
     from .common import writes_inside_the_walk
     ctx.guard("R15.1", "writes-inside-the-walk", writes_inside_the_walk, ctx, "R15.1", {"src/tensor.rs"}, lambda p_, l_, f_: (f_.get("inputs") or [""])[0].startswith("&mut") and l_ not in ("extend", "reshape"), 6)
     from .common import no_permuting_ops
